@@ -83,6 +83,8 @@ def groupJudgeC19 (cases : Array Case) (obs : Array ObsLine) : Array Json := Id.
                 let coreText := " ".intercalate (refsC.map (·.2))
                 let vals := nestx.flatMap fun r => r.filterMap fun (k, v) =>
                   if k = "Statement ID" || linkCols.contains k || sEnds k "-Ref" || k = "Statement Annotation" || sEnds k "(Annotation)" then none else some v
+                -- a cell may hold several values joined by commas (private and shared properties)
+                let vals := vals.flatMap fun v => (v.splitOn ",").map sTrim |>.filter (· ≠ "")
                 match vals.find? (fun v => (coreText.splitOn (sTrim v)).length < 2) with
                 | some v => some s!"value '{v}' of a nested statement is missing from the IG Core cell text '{coreText}'"
                 | none => none
